@@ -181,6 +181,10 @@ theorem events_append (a b : List Step) : events (a ++ b) = events a ++ events b
   | nil => rfl
   | cons x xs ih => cases x <;> simp [events, ih]
 
+theorem events_mid (pre post : List Step) (e : LoginEv) :
+    events (pre ++ .recv e :: post) = events pre ++ e :: events post := by
+  rw [events_append]; rfl
+
 theorem events_sched (cap k : Nat) (script : List LoginEv) : events (sched cap k script) = script := by
   induction script generalizing k with
   | nil => cases k <;> simp [sched, events]
